@@ -279,6 +279,29 @@ def check_case(p, fn, w, rng, nreq, requests=None):
                            history=[[r[0], r[1], list(r[2])] for r in requests]),
                 impl=str(v), spec=str(ref)))
             break
+    # multi-element requests (slices / lists) on any name: every element against the interpreter, no exception
+    if not out["failures"] and requests and nreq:
+        shape_hint = (w["nb"], w["nb"]) + (5,) * w["np"]
+        for name, spec in KS.random_multi_requests(rng, names, w["nb"], w["np"], 2):
+            o, elems = KS.observe_multi(series, name, spec, shape_hint)
+            out["evaluations"] += 1
+            refs = []
+            try:
+                refs = [it.get(name, e) for e in elems]
+            except Bottom:
+                continue
+            inp = dict(source=p["source"], shipped=p["name"] if p.get("shipped") else None, world=PG.world_to_json(w),
+                       multi_request=[name, spec])
+            if o[0] == "exn":
+                if o[1] in ("RuntimeError", "KeyError"):
+                    out["failures"].append(dict(what="the multi-element request %s%s raised %s where the direct interpretation defines every element" % (name, spec, o[1]), input=inp))
+                    break
+                continue
+            for v, ref in zip(o[1], refs):
+                vm = ZERO if v == "zero" else ONE if v == "one" else (PG.to_sympy(v) if isinstance(v, tuple) and len(v) == 4 and v[0] != "other" else None)
+                if vm is None or sympy.simplify(vm - ref) != ZERO:
+                    out["failures"].append(dict(what="an element of the multi-element request %s%s differs from the direct interpretation" % (name, spec), input=inp))
+                    break
     return out
 
 
